@@ -301,6 +301,7 @@ def atom_text(v) -> str:
     return repr(v)
 
 
+SEQ_TEXTS: set = set()  # `self.<name>` texts that only ever hold lists / dicts / texts in the tree under analysis (set by report.Ctx)
 STR_CALLS = (".strftime", ".isoformat")  # methods whose result is text whatever the receiver
 BYTES_CALLS = ("encode_item_header", "struct.pack", "bytes", "bytearray", ".to_bytes", ".encode", ".join")
 
@@ -701,12 +702,16 @@ class Summariser:
             return True
         if node.func.id == "bool" and len(node.args) == 1:
             a = node.args[0]
+            if isinstance(a, ast.Attribute) and norm(a) in SEQ_TEXTS:
+                return True  # bool(<list attribute>) is `len(...) > 0`
             return isinstance(a, (ast.Compare, ast.BoolOp)) or (isinstance(a, ast.UnaryOp) and isinstance(a.op, ast.Not)) or Summariser._is_bool_call(a)
         return False
 
     def _lengths(self, test, env):
         """`if xs:` / `if not xs:` on a sequence value is a test of its length."""
         def is_seq(n):
+            if isinstance(n, ast.Attribute):
+                return norm(n) in SEQ_TEXTS  # an attribute that only ever holds lists / dicts / texts (model.Repo.seq_texts)
             if not isinstance(n, ast.Name):
                 return False
             v = env.get(n.id)
@@ -719,6 +724,8 @@ class Summariser:
 
         if is_seq(test):
             return as_len(test)
+        if isinstance(test, ast.Call) and isinstance(test.func, ast.Name) and test.func.id == "bool" and len(test.args) == 1 and not test.keywords and is_seq(test.args[0]):
+            return as_len(test.args[0])
         if isinstance(test, ast.UnaryOp) and isinstance(test.op, ast.Not):
             return ast.UnaryOp(op=ast.Not(), operand=self._lengths(test.operand, env))
         if isinstance(test, ast.BoolOp):
@@ -822,8 +829,12 @@ class Summariser:
     def _resume(self, tree, rest):
         """Continue after an inlined helper: paths that left the helper (LeaveBlock) or fell off its end go on."""
         if isinstance(tree, Leaf):
+            if tree.state.term == "leave" and isinstance(tree.state.value, int) and tree.state.value > 1:
+                tree.state.value -= 1  # leaves the enclosing helper as well
+                return tree
             if tree.state.term in (None, "leave"):
                 tree.state.term = None
+                tree.state.value = None
                 return self.block(rest, tree.state)
             return tree
         return Node(tree.cond, self._resume(tree.t, rest), self._resume(tree.f, rest))
@@ -1090,6 +1101,7 @@ class Summariser:
             return state
         if st.__class__.__name__ == "LeaveBlock":
             state.term = "leave"
+            state.value = getattr(st, "levels", 1)  # how many inlined helpers are left
             return state
         if isinstance(st, (ast.For, ast.While)):
             return self.loop(st, state)
